@@ -468,26 +468,8 @@ void DOMRangeImpl::selectNode(const DOMNode* refNode)
         throw DOMRangeException(
             DOMRangeException::INVALID_NODE_TYPE_ERR, 0, fMemoryManager);
     }
-    //First check for the text type node
-    short type = refNode->getNodeType();
-    if((type == DOMNode::TEXT_NODE
-        || type == DOMNode::CDATA_SECTION_NODE
-        || type == DOMNode::COMMENT_NODE
-        || type == DOMNode::PROCESSING_INSTRUCTION_NODE))
-    {
-        //The node itself is the container.
-        fStartContainer = (DOMNode*) refNode;
-        fEndContainer   = (DOMNode*) refNode;
-
-        //Select all the contents of the node
-        fStartOffset = 0;
-        if (type == DOMNode::PROCESSING_INSTRUCTION_NODE)
-            fEndOffset = XMLString::stringLen(((DOMProcessingInstruction*)refNode)->getData());
-        else
-            fEndOffset = ((DOMText *)refNode)->getLength();
-        return;
-    }
-
+    // The range selects the node itself (whatever its type), not only its
+    // contents: both boundary-points are in the parent of the node
     DOMNode* parent = refNode->getParentNode();
     if (parent != 0 ) // REVIST: what to do if it IS 0?
     {
@@ -914,10 +896,9 @@ const XMLCh* DOMRangeImpl::toString() const
         if (node == 0) break;
         type = node->getNodeType();
 
+        // only the data characters, not any markup (comments, PIs)
         if((type == DOMNode::TEXT_NODE
-            || type == DOMNode::CDATA_SECTION_NODE
-            || type == DOMNode::COMMENT_NODE
-            || type == DOMNode::PROCESSING_INSTRUCTION_NODE)) {
+            || type == DOMNode::CDATA_SECTION_NODE)) {
             retStringBuf.append(node->getNodeValue());
         }
         node = nextNode(node, true);
